@@ -5,6 +5,7 @@ import (
 	"errors"
 	"fmt"
 	"io"
+	"math"
 
 	"github.com/acquirecloud/golibs/container"
 	gerrors "github.com/acquirecloud/golibs/errors"
@@ -25,7 +26,7 @@ type Case struct {
 
 // Info is what the classifier needs.
 type Info struct {
-	Wrap, Full, Empty, BigFill bool
+	Wrap, Full, Empty, BigFill, Extreme bool
 }
 
 // Run executes the case against the real buffer and the slice model.
@@ -120,6 +121,9 @@ func run(c Case, info *Info) *vstat.Violation {
 			want := 0
 			if op.N > 0 {
 				want = min(op.N, len(model))
+			}
+			if op.N > 1<<31 || op.N < -(1<<31) {
+				info.Extreme = true
 			}
 			if want > 0 && rpos+want > n1-1 && rpos > wpos {
 				info.Wrap = true
@@ -241,6 +245,9 @@ func (i Info) Classes() []string {
 	if i.BigFill {
 		c = append(c, "bulk_clear_ge_50")
 	}
+	if i.Extreme {
+		c = append(c, "skip_argument_beyond_32_bits")
+	}
 	return c
 }
 
@@ -256,5 +263,6 @@ func Alphabet(cp int) []Op {
 	for n := -1; n <= cp+1; n++ {
 		a = append(a, Op{K: "a", N: n})
 	}
+	a = append(a, Op{K: "s", N: math.MaxInt}, Op{K: "a", N: math.MaxInt})
 	return a
 }
